@@ -41,6 +41,18 @@ CHECKS = {
         note='Trusted: Coq kernel; gen_tables.py; extraction + OCaml; differential harness. String-coded enums are covered by the NoDup '
              'side condition and the ALPN/NPN exact-match model only; their text parsers belong to C07/C16/C18.',
         technique='Coq proof (generic lemmas + vm_compute side conditions on generated tables); extracted-model vs implementation differential run'),
+    'C12': dict(
+        category='proof',
+        text='Coq theorems over the ArrayBase state machine, generic in item type, size function and bounds (hence for every vector '
+             'class at once) and by induction over arbitrary operation sequences: the size bookkeeping stays exact and within bounds, an '
+             'accepted edit leaves exactly the plain-list result, a refused edit changes nothing and is refused exactly when the plain-list '
+             'result would leave the bounds (or where a plain list raises itself), no spurious refusals, and the composed prefix equals the '
+             'body length and fits its width (side condition decided on the generated parameters of all 44 vector classes). Tie: edit '
+             'histories on 8 real vector classes, extracted model vs implementation, plus a shadow plain-list oracle.',
+        design_ref='DESIGN.md section 6, C12',
+        note='Trusted: Coq kernel; gen_tables.py; extraction + OCaml; differential harness. Slices with step != 1 are not modelled; for '
+             'SSH name-lists the separators are not part of _items_size (observation recorded in DESIGN.md).',
+        technique='Coq proof (invariant by induction over operation sequences + refinement to plain lists); extracted-model vs implementation histories'),
 }
 
 NOT_YET = {}
